@@ -15,13 +15,18 @@ CHECKS = {
  "C02": ("S", S_TECH, "Every single-source operator instance at depth 1 and every ordered pair at depth 2 (thorough: depth 3 over a reduced catalogue, scripts up to 8 items over {1,2}) x all item strings over {1,2,3} up to length 4/5 x {complete,error,silent}, cold and hot (stepwise, so late/early emission is a mismatch); oracle: reference interpreter (Appendix A).", "§5, §7 C02", S_NOTE),
  "C03": ("S", S_TECH, "merge/concat/zip/combine_latest/amb/take_until/skip_until/sample/sequence_equal/flat_map over 2-3 sources: all per-source scripts (<=2-3 items + complete/error/silent) x ALL sequential interleavings (hot, compared stepwise) + cold and mixed sources + one single-source operator below/above; oracle: reference interpreter.", "§5, §7 C03", S_NOTE),
  "C04": ("S", S_TECH, "Error injected at every position of every script through every operator (depth<=2) and every combining operator; retry(0..4)/retry_when/on_error_resume_next/materialize/dematerialize over sources whose k-th subscription behaves differently (5^4 attempt sequences); oracle: reference interpreter + the delivered error must be the very same payload object.", "§5, §7 C04", S_NOTE),
- "C05": ("S", S_TECH, "Every pipeline (depth<=2, combining operators) over hot sources with unsubscribe at every position of every history (also twice, also after the terminal); oracle: nothing delivered in or after the step in which unsubscribe returned, second unsubscribe is a no-op, is_subscribed truth table. (Cross-thread clause: engine T scenarios, see DESIGN §7 C05.)", "§5, §7 C05", S_NOTE),
+ "C05": ("S+T", S_TECH + "; cross-thread clause: " + T_TECH, "Every pipeline (depth<=2, combining operators) over hot sources with unsubscribe at every position of every history (also twice, also after the terminal); oracle: nothing delivered in or after the step in which unsubscribe returned, second unsubscribe is a no-op, is_subscribed truth table. Cross-thread clause (engine T): a producer thread (direct, through map, merge, flat_map, a Subject, observe_on, interval) against a main thread that unsubscribes, every schedule with <= 1-2 (thorough 2-4) preemptions; oracle: no callback whose causing library call started after unsubscribe() returned.", "§5, §7 C05", S_NOTE),
  "C06": ("S", S_TECH, "Every pipeline over probe sources (observer.is_subscribed() read after every step; polite/endless producers counted) for every terminating cause (unsubscribe at every position, terminal, take/first/element_at/take_while/contains/all/take_until/amb/retry/erroring sibling); oracle: a source the reference no longer needs reads is_subscribed()==false and makes no further emission.", "§5, §7 C06", S_NOTE),
+ "C07": ("T+S", T_TECH + "; plus single-threaded re-execution under a lock monitor", "Engine T: ~50 concurrent scenarios, one or more per operator that owns shared state (4 subject types with producer||subscriber||unsubscriber, every combining and stateful operator fed by two producer threads with a third unsubscribing, publish/ref_count/replay connect races, observe_on/subscribe_on/interval/timeout/debounce against unsubscribe), every schedule with <= 1-2 (thorough 2-3) preemptions, writer-preferring RwLock model; oracle: the runtime's deadlock / self-deadlock / livelock-horizon / stuck-worker classification. Engine S: a re-entrancy catalogue (callbacks that unsubscribe themselves / call next / complete / subscribe on the subject they are called from, live and during the hand-over of the history, through 10 operators; synchronous sources below ref_count/replay with an early-ending downstream) and a slice of the C01/C05/C06 pipeline spaces, all under the facade's lock monitor.", "§4, §5, §7 C07", T_NOTE),
  "C08": ("T", T_TECH, "Every schedule with <= c preemptions (c=2..3 quick, 3..5 thorough) of 10-13 closed post/abort histories over 1..3 poster threads and the worker runs the real AsyncFunctionQueue/NewThreadScheduler to completion; oracle: tasks disjoint, at most once, FIFO w.r.t. real-time order of post calls, one worker thread, no lost wake-up, nothing dequeued after abort returned, worker exits after abort.", "§4, §7 C08", T_NOTE),
+ "C09": ("T", T_TECH, "observe_on / subscribe_on (alone, below/above map, before take(1), stacked twice, combined) x source scripts (<=2 items + complete/error/none) emitted synchronously in subscribe or from a source thread x optional unsubscribe racing the worker; every schedule with <= 2 (thorough 3) preemptions; oracle: received = emitted (prefix if unsubscribed), terminal last, one worker thread != emitting thread, callback intervals disjoint, subscribe_on runs the source on the worker, nothing emitted after unsubscribe returned is delivered, worker exits.", "§4, §7 C09", T_NOTE),
  "C10": ("S", S_TECH, "All call sequences of length <= 6 (thorough 7) over {subscribe_i, unsubscribe_i (i<3, also repeated), next(v) (v<2), error, complete} (observers named in subscription order) on Subject/BehaviorSubject/ReplaySubject/AsyncSubject, observers attached directly and through map; oracle: four reference state machines compared stepwise per observer, and the subject's observer count after every call.", "§5, §7 C10", S_NOTE),
+ "C11": ("T", T_TECH, "merge/flat_map/zip/concat/amb over 2 (thorough 3) threaded cold sources (each subscription starts a producer thread: 2 items + complete), with and without take(1|2) downstream, and a Subject fed by two producers under take(n); every schedule with <= 2 (thorough 3) preemptions; oracle: multiset of items conserved, per-input order, zip pairs i-th items, amb lets one input through, take(n) <= n items, exactly one complete after the last item, never two terminals.", "§4, §7 C11", T_NOTE),
  "C12": ("T", T_TECH, "Subject/BehaviorSubject/ReplaySubject with 1-2 producer threads, a subscribing thread and an unsubscribing thread, two observer iteration orders (hash seeds); every schedule with <= 2 (thorough 3-4) preemptions; oracle: resident observers get every item once in per-producer order, leaving/late observers a gap-free prefix/suffix, late Replay/Behavior subscribers the full history once.", "§4, §7 C12", T_NOTE),
  "C13": ("S", S_TECH, "All call sequences of length <= 6 (thorough 7) over {subscribe_i, unsubscribe_i, connect, disconnect, source emits v, source completes, source errors} on publish/ref_count/replay, with a hot manual source and with 6 cold sources that emit synchronously inside connect/first-subscribe; oracle: reference machines (per-subscriber events stepwise, number of live source subscriptions after every call, total source subscriptions).", "§5, §7 C13", S_NOTE),
  "C14": ("S", S_TECH, "Every pipeline (depth<=2, under retry, combining operators) subscribed 2-3 times to the SAME Observable value: sequentially over cold sources whose k-th subscription differs, and mid-stream on a hot source (also after the first left); oracle: each subscriber equals the reference for an independent pipeline instance; tap side effects per subscription.", "§5, §7 C14", S_NOTE),
+ "C15": ("T", T_TECH, "{interval, timer, observe_on, subscribe_on, debounce, timeout, flat_map->observe_on, observe_on twice, sample(interval), publish(interval), delay} x ending {source complete/error, unsubscribe, take(1), first, take_until(timer), amb, retry}, each also twice in a row, in virtual time, every schedule with <= 1-2 (thorough 2-3) preemptions; oracle: at quiescence every controlled thread has exited (none parked in Condvar::wait), and each exits within 2*d_max of virtual time after its subscription ended.", "§4, §7 C15", T_NOTE),
+ "C16": ("T", T_TECH, "interval(d) with unsubscribe at several instants, timer(d), delay(d) under a source thread with gap scripts, timeout(d) with gaps below/above d, completion inside/outside d, a slow consumer, sample/debounce over a source thread; d in {10,20} ms of virtual time, every schedule with <= 2 (thorough 3) preemptions; oracle: exact (virtual time, event) sequences for interval/timer/delay/timeout incl. io::ErrorKind::TimedOut, subsequence/no-duplicate for sample/debounce.", "§4, §7 C16", T_NOTE),
  "C17": ("S", S_TECH, "Every pipeline (depth<=2, combining operators) x every way of ending (terminal, unsubscribe at every position); an Arc token is captured by the 3 subscriber callbacks, by every closure handed to an operator and carried by every item; oracle: after the end and after dropping all handles every token has exactly one owner.", "§5, §7 C17", S_NOTE),
  "C18": ("T", T_TECH, "A source thread emitting <=2 items then complete/error against a minimal block_on (facade Mutex/Condvar + std::task::Wake) polling to_vec(); every schedule with <= 3 (thorough 4-6) preemptions; oracle: result equals the script, Ready never before the source's terminal, main never parked forever (lost wake-up).", "§4, §7 C18", T_NOTE),
  "C19": ("T", T_TECH, "2-3 threads of which one signals a terminal: inputs of merge/flat_map/zip/amb/combine_latest, source vs trigger of take_until/skip_until/sample, next||complete||error on the four subject types, each observed directly and through map; every schedule with <= 2 (thorough 3) preemptions; oracle: at most one terminal, no callback caused by a library call that started after the terminal callback returned.", "§4, §7 C19", T_NOTE),
